@@ -376,6 +376,43 @@ func (sc *scen) run() {
 			sc.observeFor(3 * time.Second)
 			sc.finishBarrier()
 		}
+	case "shard-raised":
+		// SHARD DURATION raised from 1 h to 1 d by an ALTER that does not name the index
+		// duration; a point two days back then gets a one-day shard group. The policy duration
+		// is then set so that [group start + 1 h] + duration already lies in the past while the
+		// group's own end + duration is most of a day away: whatever the policy's index group
+		// duration was left at, the point is inside the retention window and must stay readable
+		sc.S = time.Hour
+		sc.T0 = clk()
+		sc.ge = sc.T0.Truncate(time.Hour).Add(-time.Hour).UnixNano()
+		if !sc.createDB(1000 * time.Hour) {
+			return
+		}
+		sc.write("rp1", "old", sc.ge-30*60*sec, sc.S) // a one-hour group (and its index group) exists
+		sc.write("autogen", "autogen", sc.ge-400*24*3600*sec, 168*time.Hour)
+		stmt := fmt.Sprintf("ALTER RETENTION POLICY rp1 ON %s SHARD DURATION 1d", sc.db)
+		if _, _, err, tr := sc.w.exec("", stmt); err != nil || tr {
+			sc.abort("alter shard duration: %v", err)
+			return
+		}
+		sc.note("%s", stmt)
+		sc.S = 24 * time.Hour
+		day0 := sc.T0.Add(-48 * time.Hour).Truncate(24 * time.Hour)
+		sc.ge = day0.Add(24 * time.Hour).UnixNano()
+		sc.p1 = sc.write("rp1", "survivor", day0.Add(30*time.Minute).UnixNano(), sc.S)
+		sc.p2 = sc.write("rp1", "survivor", day0.Add(13*time.Hour).UnixNano(), sc.S)
+		if sc.p1 == nil || sc.p2 == nil {
+			sc.abort("points not acknowledged")
+			sc.w.c.Inconclusive("write-refused:"+sc.Spec.Kind, 1)
+			return
+		}
+		sc.observeFor(3 * time.Second)
+		d := clk().Sub(day0.Add(time.Hour)).Truncate(time.Second) - 60*time.Second
+		if !sc.alter(d) {
+			sc.abort("alter duration refused")
+			return
+		}
+		sc.observeFor(20 * time.Second)
 	case "far":
 		if !sc.setup(false) {
 			return
@@ -708,6 +745,7 @@ func genSpecs(rng *rand.Rand, thorough bool, round int) (a, b, st []spec) {
 	a = append(a, mk("equal", 40))
 	a = append(a, mk("refused", 3*3600))
 	a = append(a, mk("writer", 40))
+	a = append(a, mk("shard-raised", 3*3600))
 	if thorough {
 		kinds := []string{"expire", "lowered", "raise-before", "raise-after", "unlimited", "writer", "lowered-soon"}
 		for i := 0; i < 4; i++ {
